@@ -7,7 +7,7 @@
    filters (the repaired defect); a message that arrives and is removed before the session looked nets to zero.
    The per-history agreement of model and server (fresh views at quiescence points included) is checked on every run. *)
 From Coq Require Import List NArith Bool.
-From Gluon Require Import Model.Responders Model.Session Proofs.MirrorProofs Proofs.PopProofs
+From Gluon Require Import Gen.FactsFilters Model.FilterPolicy Model.Responders Model.Session Proofs.MirrorProofs Proofs.PopProofs
   Proofs.ConvergeProofs Proofs.MembershipProofs Proofs.SessionWitness.
 Import ListNotations.
 Open Scope N_scope.
@@ -19,6 +19,12 @@ Theorem C02_world_refuted :
              ss_queue (nth 0 (w_sess w) (mkSess None (mkS [] []) [] false)) = [].
 Proof. exact c02_world_refuted. Qed.
 Print Assumptions C02_world_refuted.
+
+(* T1: the filter each update kind of the model applies is the filter the source gives it — the Filter method bodies
+   and the filter embedded in / passed to every update type are re-extracted from internal/state on every run *)
+Theorem C02_model_filters_are_source_filters : forall u s, src_filter u s = Some (upd_filter u s).
+Proof. exact model_filters_are_source_filters. Qed.
+Print Assumptions C02_model_filters_are_source_filters.
 
 Theorem C02_nothing_pending_after_permitting_flush : forall st st' out,
   flush true st = FOk st' out -> s_res st' = [].
